@@ -184,6 +184,15 @@ def c02(ctx):
             out.append((cid, "the value's own bytes map to different content"))
         if not kv.get('inside', '').startswith('ok'):
             out.append((cid, 'a reachable reference lies outside the slice or is misaligned: %s' % kv.get('inside')))
+        # the bytes the value reports as its own (the first size() of them) validate again and hold the same content
+        tv = kv.get('tv')
+        if tv is not None:
+            if tv == '-':
+                out.append((cid, 'the value reports more bytes (size=%s) than the slice it was mapped from' % kv.get('size')))
+            elif tv != 'ok':
+                out.append((cid, "the value's own bytes (the first size()=%s) do not validate again: %s" % (kv.get('size'), tv)))
+            elif kv.get('tview') != 'same':
+                out.append((cid, "the value's own bytes (the first size()) map to different content"))
     # the other entry points (FlatWrap::from_wrapped_bytes, from_mut_bytes) must agree with from_bytes on every slice
     for cid, l in ctx.ops('M'):
         r = ctx.rres.get(cid)
